@@ -147,6 +147,13 @@ Proof.
   cbn in V. rewrite <- V in H. exact (dinv_alias d I n a H).
 Qed.
 
+(* Looking a known name up returns its address and leaves the table AND the
+   address counter exactly as they were: only a name seen for the first time
+   consumes an address (however often the others are looked up). *)
+Theorem dns_known_lookup_no_advance : forall d id a,
+  find_name id (names d) = Some a -> lookup d (Name id) = (a, d).
+Proof. exact lookup_name_known. Qed.
+
 (* Reverse lookup inverts lookup (same guard). *)
 Theorem dns_reverse : forall v es n,
   let d := dstate (dinit v) es in
@@ -233,6 +240,7 @@ Print Assumptions dns_injective.
 Print Assumptions dns_guard_tight.
 Print Assumptions dns_reverse.
 Print Assumptions dns_lookup_many_filter.
+Print Assumptions dns_known_lookup_no_advance.
 Print Assumptions c15_consts.
 Print Assumptions c15_nonvacuous.
 Print Assumptions c15_shared_listener_port.
